@@ -249,13 +249,20 @@ class NDNApp:
         node = self._int_tree.setdefault(node_name, InterestTreeNode())
         node.append_interest(future, interest_param, implicit_sha256)
         self.face.send(raw_interest)
-        return self._wait_for_data(future, interest_param.lifetime, node_name, node, validator, need_raw_packet)
+        # The lifetime runs from now (on the loop's clock), not from the moment the caller first awaits the result
+        lifetime = 100 if interest_param.lifetime is None else interest_param.lifetime
+        deadline = aio.get_running_loop().time() + lifetime / 1000.0
+        return self._wait_for_data(future, deadline, node_name, node, validator, need_raw_packet)
 
-    async def _wait_for_data(self, future: aio.Future, lifetime: int, node_name: FormalName,
+    async def _wait_for_data(self, future: aio.Future, deadline: float, node_name: FormalName,
                              node: InterestTreeNode, validator: Validator, need_raw_packet: bool):
-        lifetime = 100 if lifetime is None else lifetime
+        remaining = deadline - aio.get_running_loop().time()
+        if remaining <= 0:
+            # The application expressed the Interest, did something else, and only now fetches the result
+            # (same allowance as in appv2)
+            remaining = 0.1
         try:
-            data_name, meta_info, content, sig, raw_packet = await aio.wait_for(future, timeout=lifetime/1000.0)
+            data_name, meta_info, content, sig, raw_packet = await aio.wait_for(future, timeout=remaining)
         except TimeoutError:
             # The node may have left the tree already (Data or Nack processed in the same loop turn as the timer):
             # only delete the node we were put into.
